@@ -7,6 +7,7 @@ package main
 
 import (
 	"bytes"
+	"encoding/json"
 	"fmt"
 	"os"
 	"os/exec"
@@ -343,4 +344,97 @@ func runSeeded(prop, repo, verif string) map[string]any {
 	}
 	return map[string]any{"seeded_total": len(dirs), "seeded_reported": reported, "seeded_missed": missed, "seeded_skipped": skipped, "seeded_harmless": neutral, "details": details,
 		"meaning": "seeded changes written by sub-agents from the property text alone and confirmed against the real code; re-applied as overlays of the current source. Validation of the analyser, not property coverage"}
+}
+
+// runRefactorings re-applies the behaviour-preserving rewrites archived under <verif>/refactorings/ (written by
+// sub-agents that saw only the property text, confirmed by the project's test suite and by reading) as overlays of the
+// current source: none of them may be reported. A refactoring is replayed under the property it was written for and under
+// every property listed in its meta.json "also" (the properties that reported it when it was first swept).
+func runRefactorings(prop, repo, verif string) map[string]any {
+	exe, err := os.Executable()
+	if err != nil {
+		return map[string]any{"error": err.Error()}
+	}
+	dirs, _ := filepath.Glob(filepath.Join(verif, "refactorings", "*"))
+	sort.Strings(dirs)
+	var details []map[string]any
+	total, quiet, alarms, skipped := 0, 0, 0, 0
+	fileRe := regexp.MustCompile(`(?m)^\+\+\+ b/(\S+)`)
+	for _, d := range dirs {
+		label := filepath.Base(d)
+		mine := strings.HasPrefix(label, prop+"-")
+		if mb, err := os.ReadFile(filepath.Join(d, "meta.json")); err == nil {
+			var meta struct {
+				Also []string `json:"also"`
+			}
+			if json.Unmarshal(mb, &meta) == nil {
+				for _, a := range meta.Also {
+					if a == prop {
+						mine = true
+					}
+				}
+			}
+		}
+		patch, err := os.ReadFile(filepath.Join(d, "patch.diff"))
+		if !mine || err != nil {
+			continue
+		}
+		total++
+		det := map[string]any{"refactoring": label}
+		tmp, err := os.MkdirTemp("", "kvlint-ref-*")
+		if err != nil {
+			continue
+		}
+		args := []string{"check", prop, "--tier", "quick", "--no-write", "--repo", repo, "--verif", verif}
+		ok := true
+		for _, m := range fileRe.FindAllStringSubmatch(string(patch), -1) {
+			rel := m[1]
+			src, err := os.ReadFile(filepath.Join(repo, rel))
+			if err != nil {
+				ok = false
+				break
+			}
+			dst := filepath.Join(tmp, rel)
+			os.MkdirAll(filepath.Dir(dst), 0o755)
+			os.WriteFile(dst, src, 0o644)
+			args = append(args, "--overlay", rel+"="+dst)
+		}
+		if ok {
+			pc := exec.Command("patch", "-p1", "-s", "-f", "-d", tmp, "-i", filepath.Join(d, "patch.diff"))
+			if out, err := pc.CombinedOutput(); err != nil {
+				ok = false
+				det["note"] = "patch no longer applies to the current source: " + firstLines(string(out), 2)
+			}
+		}
+		if !ok {
+			skipped++
+			det["outcome"] = "skipped"
+			details = append(details, det)
+			os.RemoveAll(tmp)
+			continue
+		}
+		out, _ := exec.Command(exe, args...).CombinedOutput()
+		os.RemoveAll(tmp)
+		var seen []string
+		for _, mm := range violRe.FindAllStringSubmatch(string(out), -1) {
+			if mm[2] == "violation" || mm[2] == "undecided" {
+				seen = append(seen, mm[1]+":"+mm[3])
+			}
+		}
+		sort.Strings(seen)
+		switch {
+		case strings.Contains(string(out), "construct=load") || strings.Contains(string(out), "construct=analysis-panic"):
+			skipped++
+			det["outcome"], det["note"] = "skipped", "patched source does not type-check any more"
+		case len(seen) > 0:
+			alarms++
+			det["outcome"], det["reports"] = "FALSE-ALARM", seen
+		default:
+			quiet++
+			det["outcome"] = "quiet"
+		}
+		details = append(details, det)
+	}
+	return map[string]any{"refactorings_total": total, "refactorings_quiet": quiet, "refactorings_reported": alarms, "refactorings_skipped": skipped, "details": details,
+		"meaning": "behaviour-preserving rewrites written by sub-agents from the property text alone (suite passes, read by hand); re-applied as overlays of the current source. None may be reported. Validation of the analyser, not property coverage"}
 }
